@@ -1,8 +1,9 @@
 #!/bin/bash
-# usage: tools/collect_seed.sh Cxx   -- copy a round-2 sub-agent's deliverables into /verif/seeded and remove its scratch worktree
-p="$1"; wt="/tmp/wt2_$p"
+# usage: tools/collect_seed.sh Cxx [round]   -- copy a sub-agent's deliverables (round 2: /tmp/wt2_Cxx -> Cxx_3, Cxx_4;
+# round 3: /tmp/wt3_Cxx -> Cxx_5, Cxx_6) into /verif/seeded and remove its scratch worktree
+p="$1"; r="${2:-2}"; wt="/tmp/wt${r}_$p"; off=$(( (r-1)*2 ))
 for k in 1 2; do
-  src="$wt/_seeded/$k"; dst="/verif/seeded/${p}_$((k+2))"
-  if [ -f "$src/patch.diff" ]; then mkdir -p "$dst"; cp "$src/patch.diff" "$src/demo.py" "$src/notes.md" "$dst/" 2>/dev/null; echo "collected $dst"; fi
+  src="$wt/_seeded/$k"; dst="/verif/seeded/${p}_$((k+off))"
+  if [ -f "$src/patch.diff" ]; then mkdir -p "$dst"; cp "$src/patch.diff" "$src/demo.py" "$src/notes.md" "$dst/" 2>/dev/null; sed -i "/assert .*__file__.*startswith(\"\/tmp\/wt/d" "$dst/demo.py"; echo "collected $dst"; fi
 done
 git -C /repo worktree remove --force "$wt" && rm -rf "$wt" && echo "removed $wt"
